@@ -179,6 +179,16 @@ def Canonical(t):
     return z3.And(dt.len(t) >= 0, q)
 
 
+_CANON = {}
+
+
+def canon_fn(list_srt):
+    k = str(list_srt)
+    if k not in _CANON:
+        _CANON[k] = z3.Function("is_canon!" + k, list_srt, z3.BoolSort())
+    return _CANON[k]
+
+
 def NonNegLen(t):
     dt, es = _info(t)
     return dt.len(t) >= 0
